@@ -635,6 +635,11 @@ class FnTr:
                         fail(n, 'construct outside grammar')
                     if isinstance(n, ast.FunctionDef) and n is not self.src:
                         fail(n, 'nested def')
+                # Python scoping: a name stored anywhere in the body is local everywhere in it (a use before the
+                # assignment is UnboundLocalError, not the module-level meaning of the name)
+                for nm in self.stored_names():
+                    if nm not in env:
+                        env[nm] = Var('dead')
                 code = self.block(body, env, self.fall_off)
             except Restart:
                 continue
@@ -664,6 +669,21 @@ class FnTr:
         fn.text = (f'(* {where}  ({self.module}) *)\n'
                    f'Definition {fn.coqname}{" " + binders if binders else ""} : {fn.result_ty()} :=\n{ind(code)}.\n')
         return fn
+
+    def stored_names(self):
+        out, comp_nodes = [], set()
+        for n in ast.walk(self.src):
+            if isinstance(n, (ast.ListComp, ast.GeneratorExp, ast.SetComp, ast.DictComp)):
+                for g in n.generators:
+                    comp_nodes.update(id(x) for x in ast.walk(g.target))
+        for n in ast.walk(self.src):
+            if isinstance(n, ast.Name) and isinstance(n.ctx, ast.Store) and id(n) not in comp_nodes:
+                out.append(n.id)
+            elif isinstance(n, (ast.Import, ast.ImportFrom)):
+                out += [(a.asname or a.name).split('.')[0] for a in n.names]
+            elif isinstance(n, ast.ExceptHandler) and n.name:
+                out.append(n.name)
+        return sorted(set(out))
 
     def fall_off(self, env):
         """the end of the body is reached without a return"""
@@ -763,9 +783,7 @@ class FnTr:
         r = self.u.src.resolve(s.module, name)
         if r is None or r[0] != 'def':
             fail(s, 'local import of something that is not a class of the library')
-        env = dict(env)
-        env[name] = Var('cls', info=(r[1], r[2]))
-        return k(env)
+        return k(self.bind_name(env, name, Var('cls', info=(r[1], r[2])), s))
 
     def bind_name(self, env, name, var, node):
         if name in env and env[name].kind not in ('local', 'dead'):
@@ -1115,6 +1133,8 @@ class FnTr:
                     if v.ty != 'str':
                         fail(a, 'operands must be str')
                     plain.append(v)
+            if pre:
+                fail(node, 'key / arguments of a dispatch table call must not be able to raise')
             lst = '[' + '; '.join(v.code for v in plain) + ']'
             argv = lst if star is None else (atom(star.code) if not plain else f'({lst} ++ {atom(star.code)})%list')
             h = self.fresh('h')
